@@ -83,7 +83,7 @@ def universe(tier, names=NAMES):
     ops += [("col", "pattern"), ("col", "const"), ("attr", "pattern"), ("attr", "const"), ("rot",),
             ("vcell", 0), ("newcol",), ("delcol", "w"), ("popcol", "k"),
             ("append", names[0]), ("append", names[-1]), ("index", "k"), ("index", "name"),
-            ("cellk", 0, names[0]),
+            ("cellk", 0, names[0]), ("cellk", 1, names[-1]), ("colfrom", "k"),
             ("delidx", "del"), ("delidx", "pop"), ("readd", "item"), ("readd", "attr")]
     # several cells of the index column at once: position slices, a position list, a boolean mask
     for nm in names[:2]:
@@ -161,6 +161,8 @@ class System(simple.SimpleSystem):
                 continue
             if k == "index" and (op[1] not in m.cols or m.index == op[1]):
                 continue
+            if k == "colfrom" and (op[1] not in m.cols or m.index == op[1] or n == 0):
+                continue
             if k == "cellby":
                 name, count, off = parse_row(op[1])
                 pos = resolve(m.icol(), name, count, off)
@@ -209,6 +211,10 @@ class System(simple.SimpleSystem):
             else:
                 setattr(t, m.index, val)
             m.cols[m.index] = new
+        elif k == "colfrom":
+            # the whole index column replaced by the array of ANOTHER column of the same table (which stays a live column)
+            t[m.index] = t[op[1]]
+            m.cols[m.index] = list(m.cols[op[1]])
         elif k == "rot":
             t[m.index] = np.roll(t[m.index], 1)
             c = m.icol()
@@ -298,6 +304,8 @@ class System(simple.SimpleSystem):
         if k in ("col", "attr"):
             val = "'a'" if op[1] == "const" else f"np.array({list(PATTERN)!r}[:len(t)], dtype=object)"
             return f"t[t._index] = {val}" if k == "col" else f"setattr(t, t._index, {val})"
+        if k == "colfrom":
+            return f"t[t._index] = t[{op[1]!r}]"
         if k == "rot":
             return "t[t._index] = np.roll(t[t._index], 1)"
         if k == "vcell":
